@@ -30,7 +30,7 @@ for p in props:
         na.append({"property_id": pid, "reason": na_reasons.get(pid, "check under construction in this round (model and harness exist, theorems not yet registered); see DESIGN.md section 7")})
 m = {
     "version": 1,
-    "setup_cmd": "cd /verif && ./setup.sh",
+    "setup_cmd": "./setup.sh",
     "hooks": {
         "guard": "cargo feature `verif`",
         "enable": "the harness crate /verif/harness depends on /repo with `default-features = false, features = [\"csv\", \"verif\"]`; C19 additionally builds the extension with `--features python,csv`",
